@@ -132,6 +132,7 @@ def run(ctx):
     from engine.kernelsibs import kernel_sibs
     ctx.require(kernel_sibs(ctx, prog) >= 20, 'too few kernel families found')
     borrow(ctx, 'C05', ['SIBLING-INDEX'], 'a typed write variant that addresses the block buffer differently (e.g. computes its offset once per call instead of once per chunk) makes the bytes depend on how the writes were split')
+    borrow(ctx, 'C05', ['FRAME-ALIGN'], 'a writer whose staging chunk is not a whole number of frames stores different bytes for one long write than for the same samples in short writes')
 
 
 
